@@ -17,8 +17,9 @@
               (8)                 info without zoom fields: (is_bigwig version field_count defined_fc chroms)
      autosql () | ((bytes))
      flags   bit 0: the file bytes are part of the output (only for uncompressed files)
-             bit 1: the 40-byte total-summary slot is zeroed before printing (until Model/BedSweep.v
-                    supplies the summary; with bit 1 set the writer model is the no-sweep one)
+             bit 1: the 40-byte total-summary slot is zeroed before printing and the writer model is
+                    the no-sweep one (no summary, no zoom level: only meaningful for files written
+                    without zoom levels); without bit 1 the model is the complete file
    output = (1 code) | (2) | (3) when the write is refused / panics / hangs, else
             (0 file-bytes-or-() (answer ...)) *)
 From BT Require Import Base.Util Base.Sexp Base.LE Base.Float Model.RTree Model.BBIFile Model.BigWigWrite
@@ -55,12 +56,16 @@ Definition bed_answer (bs : list N) (i : info) (q : sexp) : sexp :=
   else if k =? 7 then sList (sRes (sList sEntry)) (c_bb_history idf bs i cache0 (getList get_q3 (nthS 1 q)))
   else sRes sInfoLite (Ok i).
 
-(* the writer model of a case.  Both pass modes produce the same data, chromosome tree and index;
-   they differ in the zoom levels only (Model/BedSweep.v). *)
+(* the writer model of a case: the complete file (summary and zoom levels from Model/BedSweep.v);
+   with flag bit 1 the no-sweep file (summary slot zero, no zoom level).  Both pass modes produce
+   the same data, chromosome tree and index; they differ in the zoom levels only. *)
 Definition bed_write_model (c : sexp) : res (list N) :=
+  let kind := getN (nthS 0 c) in
   let o := get_opts (nthS 1 c) in
   let sizes := get_sizes (nthS 2 c) in
-  bb_write_nosweep o sizes (bed_autosql c) (bed_input c).
+  if flag_mask_summary c then bb_write_nosweep o sizes (bed_autosql c) (bed_input c)
+  else if kind =? 0 then bb_write ieee o sizes (bed_autosql c) (bed_input c)
+  else bb_write_multipass ieee o sizes (bed_autosql c) (bed_input c).
 
 Definition bed_model_with (write : sexp -> res (list N)) (c : sexp) : sexp :=
   match write c with
